@@ -1,8 +1,8 @@
 (* C06 — Input models accept exactly the schema's input values, with its defaults.
    Property theorems only; proofs live in Proofs/InputsP.v, Proofs/AcceptsP.v, Proofs/DefaultsP.v. *)
-From Coq Require Import List String Ascii ZArith Bool.
+From Coq Require Import List String Ascii ZArith Bool Lia.
 From AC Require Import Base.Json Base.Strs Gql.InSchema Gql.InCoerce Model.Names Model.Defaults Model.Inputs
-  Py.PyEval Proofs.InputsP Proofs.FreshP Proofs.AcceptsP Proofs.DefaultsP Proofs.ValidateP Proofs.ByNameP.
+  Py.PyEval Proofs.InputsP Proofs.FreshP Proofs.AcceptsP Proofs.DefaultsP Proofs.ValidateP Proofs.ByNameP Proofs.ReshapeP.
 Import ListNotations.
 Local Open Scope string_scope.
 
@@ -95,15 +95,48 @@ Theorem C06_python_names_distinct : forall snake fs, NoDup (map i_name fs) ->
 Proof. exact fname_nodup. Qed.
 Print Assumptions C06_python_names_distinct.
 
-(* what still refutes the full statement — the rest of F18: the Python name of one field is the GraphQL name of
-   ANOTHER field (class -> class_, next to a field class_), so populate_by_name reads the other field's value *)
+(* the Python name of a field is never the GraphQL name of a DIFFERENT field (fix a4347c6): populate_by_name
+   cannot read another field's value *)
+Theorem C06_python_name_not_other : forall snake fs f g, In f fs -> In g fs -> i_name f <> i_name g ->
+  fname snake fs (i_name f) <> i_name g.
+Proof. exact fname_not_other. Qed.
+Print Assumptions C06_python_name_not_other.
+
+(* hence population by alias and by Python name agree: from an object keyed by GraphQL names the field reads the
+   value under its own GraphQL name, and from the same object keyed by Python names the same value (renamed) *)
+Theorem C06_population_agrees : forall s cs snake fs ren kv f,
+  names_ok_fields snake fs = true -> known_keys fs kv = true -> In f fs ->
+  field_input (gen_field s cs snake fs f) kv = jlookup (i_name f) kv /\
+  field_input (gen_field s cs snake fs f) (map (rename_entry ren snake fs) kv)
+    = option_map (ren (i_type f)) (jlookup (i_name f) kv).
+Proof.
+  intros s cs snake fs ren kv f N K Hf. split.
+  - apply (field_input_gen s cs snake fs kv f N K Hf).
+  - apply (field_input_by_name s cs snake fs ren kv f N K Hf).
+Qed.
+Print Assumptions C06_population_agrees.
+
+(* regression of the former F18b witness: class -> class__ (class_ is the GraphQL name of the other field) *)
 Definition S18b : schema :=
   [("In", DInput [{| i_name := "class"; i_type := TNamed "Int"; i_default := None |};
                   {| i_name := "class_"; i_type := TNamed "String"; i_default := None |}])].
+Example C06_cross_read_gone :
+  schema_ok true S18b = true /\
+  map p_name (c_fields (gen_class S18b [] true "In" [{| i_name := "class"; i_type := TNamed "Int"; i_default := None |};
+                                                      {| i_name := "class_"; i_type := TNamed "String"; i_default := None |}]))
+    = ["class__"; "class_"] /\
+  accepts 5 (env_of S18b [] true) (fst (parse_input_field_type S18b [] (TNonNull (TNamed "In")) true))
+          (JObj [("class_", JStr "x")]) = true.
+Proof. vm_compute. auto. Qed.
+
+(* what is left of schema_ok: GraphQL field names unique (schema validity) and no scalar named Upload.  The full
+   statement is still false for the latter — inherently: Upload is an arbitrary Python class, no JSON value is an
+   instance of it, while the schema's coercion of a custom scalar accepts any value.  Not a finding. *)
 Theorem C06_accepts_full_refuted : ~ C06_accepts_full.
 Proof.
-  intro H. specialize (H S18b [] true 5 (TNonNull (TNamed "In")) (JObj [("class_", JStr "x")])
-                         (CObj [("class_", CStr "x")]) eq_refl).
+  intro H.
+  specialize (H [("Upload", DScalar); ("In", DInput [{| i_name := "u"; i_type := TNamed "Upload"; i_default := None |}])]
+                [] true 5 (TNonNull (TNamed "In")) (JObj [("u", JStr "x")]) (CObj [("u", CStr "x")]) eq_refl).
   vm_compute in H. discriminate.
 Qed.
 Print Assumptions C06_accepts_full_refuted.
@@ -308,22 +341,74 @@ Theorem C06_reshaping_identity_on_good : forall s lit t, good_default s lit t = 
 Proof. exact coerce_lit_simple. Qed.
 Print Assumptions C06_reshaping_identity_on_good.
 
-(* what still refutes the full statement (modulo absent == null): the cross-read rest of F18 inside an object default *)
+(* regression of the former F18b witness inside an object default *)
 Definition SDb : schema :=
   [("Sub", DInput [{| i_name := "class"; i_type := TNamed "Int"; i_default := None |};
                    {| i_name := "class_"; i_type := TNamed "Int"; i_default := None |}]);
    ("In", DInput [{| i_name := "f"; i_type := TNamed "Sub"; i_default := Some (CObj [("class_", CInt 1)]) |}])].
-Theorem C06_default_full_refuted : ~ C06_default_full.
+Example C06_default_cross_read_gone :
+  option_map (fun b => match eval 10 (env_of SDb [] true) b with Ok v => option_map strip_nulls (dump v) | Err _ => None end)
+    (default_body (rhs_default (p_value (gen_field SDb [] true
+       [{| i_name := "f"; i_type := TNamed "Sub"; i_default := Some (CObj [("class_", CInt 1)]) |}]
+       {| i_name := "f"; i_type := TNamed "Sub"; i_default := Some (CObj [("class_", CInt 1)]) |}))))
+  = Some (Some (JObj [("class_", JInt 1)])).
+Proof. vm_compute. reflexivity. Qed.
+
+(* The full statement is neither proved nor refuted by a defect any more.  As STATED (JSON equality in the model,
+   floats as opaque lexemes) it still fails on a representation artefact: an Int literal for a Float field inside an
+   object default reads back 1.0 where the coerced default is 1 — numerically equal, and K3 compares numerically on
+   the real code.  Beyond the proved guards (good_default_w) the open part is default chains through object
+   defaults of omitted fields; it is exercised by K3 only. *)
+Theorem C06_default_full_fails_only_on_float_repr : ~ C06_default_full.
 Proof.
   intro H.
-  destruct (H SDb [] true [{| i_name := "f"; i_type := TNamed "Sub"; i_default := Some (CObj [("class_", CInt 1)]) |}]
-              {| i_name := "f"; i_type := TNamed "Sub"; i_default := Some (CObj [("class_", CInt 1)]) |}
-              (CObj [("class_", CInt 1)]) 9 (CObj [("class_", CInt 1)]) 10 eq_refl eq_refl ltac:(repeat constructor))
+  pose (SF := [("Sub", DInput [{| i_name := "x"; i_type := TNamed "Float"; i_default := None |}])]).
+  pose (f0 := {| i_name := "f"; i_type := TNamed "Sub"; i_default := Some (CObj [("x", CInt 1)]) |}).
+  destruct (H (SF ++ [("In", DInput [f0])])%list [] true [f0] f0
+              (CObj [("x", CInt 1)]) 9 (CObj [("x", CInt 1)]) 10 eq_refl eq_refl ltac:(repeat constructor))
     as [b [v [jd [H1 [H2 [H3 H4]]]]]].
   vm_compute in H1. inversion H1; subst b. vm_compute in H2. inversion H2; subst v.
   vm_compute in H3. inversion H3; subst jd. vm_compute in H4. discriminate.
 Qed.
-Print Assumptions C06_default_full_refuted.
+Print Assumptions C06_default_full_fails_only_on_float_repr.
+
+(* ================= reshaping of default literals (fix e1f804e) preserves their coerced value ================= *)
+Theorem C06_coerced_default_mono : forall s n m t lit cv, n <= m ->
+  coerced_default n s t lit = Some cv -> coerced_default m s t lit = Some cv.
+Proof. exact coerced_default_mono. Qed.
+Print Assumptions C06_coerced_default_mono.
+
+(* for EVERY literal (hypothesis: the GraphQL field names of each input type are unique = schema validity) *)
+Theorem C06_reshape_preserves : forall s,
+  (forall nm fs, kind_of s nm = KInput fs -> names_ok_fields true fs = true) ->
+  forall lit t n cv, coerced_default n s t lit = Some cv ->
+  exists m, coerced_default m s t (coerce_lit s lit t) = Some cv.
+Proof. exact reshape_preserves. Qed.
+Print Assumptions C06_reshape_preserves.
+
+Lemma names_ok_snake a b fs : names_ok_fields a fs = names_ok_fields b fs.
+Proof. induction fs as [|f r IH]; simpl; [reflexivity|]. rewrite IH. reflexivity. Qed.
+
+(* the default theorem on the ORIGINAL schema literal d: if the reshaped literal is of a proved shape, the generated
+   default equals (modulo absent == null) the coerced value of d itself *)
+Theorem C06_default_roundtrip_original_literal : forall s cs snake, schema_ok snake s = true ->
+  forall fs f d n cv,
+  i_default f = Some d -> good_default_w s (coerce_lit s d (i_type f)) (i_type f) = true ->
+  coerced_default n s (i_type f) d = Some cv ->
+  exists k b v jd, default_body (rhs_default (p_value (gen_field s cs snake fs f))) = Some b /\
+                   eval k (env_of s cs snake) b = Ok v /\ dump v = Some jd /\
+                   strip_nulls jd = strip_nulls (json_of_cvalue cv).
+Proof.
+  intros s cs snake OK fs f d n cv D G C.
+  assert (WF : forall nm fs0, kind_of s nm = KInput fs0 -> names_ok_fields true fs0 = true).
+  { intros nm fs0 K. pose proof (kind_of_lookup s nm) as KL. rewrite K in KL.
+    rewrite (names_ok_snake true snake). apply (schema_ok_input snake s nm fs0 OK KL). }
+  destruct (reshape_preserves s WF d (i_type f) n cv C) as [m Hm].
+  assert (ED : emitted_default s f = Some (coerce_lit s d (i_type f))) by (unfold emitted_default; rewrite D; reflexivity).
+  destruct (default_roundtrip_modulo_null s cs snake OK fs f _ m cv (S m) ED G Hm ltac:(lia)) as [b [v [jd H]]].
+  exists (S m), b, v, jd. exact H.
+Qed.
+Print Assumptions C06_default_roundtrip_original_literal.
 
 (* ================= non-vacuity ================= *)
 Definition SX : schema :=
